@@ -110,6 +110,10 @@ fn queries(l: &mut Lsp, uri: &str, ed: &Editor) -> Result<Vec<(String, J)>, Stri
     let mut out = Vec::new();
     out.push(("formatting".to_string(), l.request("textDocument/formatting", json!({"textDocument": td, "options": {"tabSize": 4, "insertSpaces": true}}))?));
     out.push(("semanticTokens".to_string(), l.request("textDocument/semanticTokens/full", json!({"textDocument": td}))?));
+    // the same tokens asked for by range: from the start of a line in the middle of the document to its end
+    let nlines = ed.text.split('\n').count();
+    let from = nlines / 2;
+    out.push((format!("semanticTokensRange@{from}"), l.request("textDocument/semanticTokens/range", json!({"textDocument": td, "range": {"start": {"line": from, "character": 0}, "end": {"line": nlines - 1, "character": Editor::utf16_len(ed.line(nlines - 1).unwrap_or(""))}}}))?));
     out.push(("documentSymbol".to_string(), l.request("textDocument/documentSymbol", json!({"textDocument": td}))?));
     out.push(("diagnostic".to_string(), l.request("textDocument/diagnostic", json!({"textDocument": td}))?));
     out.push(("foldingRange".to_string(), l.request("textDocument/foldingRange", json!({"textDocument": td}))?));
@@ -223,6 +227,8 @@ pub struct Stats {
     changes: u64,
     non_ascii_edit: bool,
     watch_events: u64,
+    range_token_answers: u64,
+    range_mismatch: Option<String>,
 }
 
 pub fn run_history(a: &mut Lsp, b: &mut Lsp, s0: &str, changes: &[Vec<Change>], n: u64) -> Result<Stats, (String, String)> {
@@ -252,7 +258,7 @@ pub fn run_history(a: &mut Lsp, b: &mut Lsp, s0: &str, changes: &[Vec<Change>], 
     a.open(&uri, s0);
     let mut ed = Editor::new(s0);
     let mut version = 1;
-    let mut st = Stats { answers: 0, positions: 0, prepare: 0, changes: 0, non_ascii_edit: false, watch_events: 0 };
+    let mut st = Stats { answers: 0, positions: 0, prepare: 0, changes: 0, non_ascii_edit: false, watch_events: 0, range_token_answers: 0, range_mismatch: None };
     for batch in changes {
         version += 1;
         let cc: Vec<J> = batch
@@ -293,6 +299,29 @@ pub fn run_history(a: &mut Lsp, b: &mut Lsp, s0: &str, changes: &[Vec<Change>], 
     b.open(&uri, &ed.text);
     let qa = queries(a, &uri, &ed).map_err(h)?;
     let qb = queries(b, &uri, &ed).map_err(h)?;
+    {
+        // semantic tokens are delta-encoded from the start of the DOCUMENT, for a range request too: decoded that way, the
+        // range answer must be the part of the full answer that starts at or after the range start
+        let abs = |v: &J| -> Vec<(usize, usize, usize, u64)> {
+            let (mut line, mut col) = (0usize, 0usize);
+            v["data"].as_array().map(|d| d.chunks(5).map(|ch| {
+                let (dl, ds) = (ch[0].as_u64().unwrap_or(0) as usize, ch[1].as_u64().unwrap_or(0) as usize);
+                if dl > 0 { line += dl; col = ds; } else { col += ds; }
+                (line, col, ch[2].as_u64().unwrap_or(0) as usize, ch[3].as_u64().unwrap_or(0))
+            }).collect()).unwrap_or_default()
+        };
+        let full = qa.iter().find(|(n, _)| n == "semanticTokens").map(|(_, v)| abs(v)).unwrap_or_default();
+        if let Some((name, v)) = qa.iter().find(|(n, _)| n.starts_with("semanticTokensRange@")) {
+            let from: usize = name.split('@').nth(1).and_then(|x| x.parse().ok()).unwrap_or(0);
+            let want: Vec<_> = full.iter().filter(|t| t.0 >= from).cloned().collect();
+            let got = abs(v);
+            if !v.is_null() && got != want {
+                // reported by the caller without ending the history: every other answer of this history is still checked
+                st.range_mismatch = Some(format!("semanticTokens/range from line {from}: decoded from the document start the answer holds {:?}..., the full answer holds {:?}... from that line on", got.iter().take(3).collect::<Vec<_>>(), want.iter().take(3).collect::<Vec<_>>()));
+            }
+            st.range_token_answers += 1;
+        }
+    }
     for ((name, x), (_, y)) in qa.iter().zip(qb.iter()) {
         st.answers += 1;
         if strip_uri(x, &uri) != strip_uri(y, &uri) {
@@ -400,8 +429,13 @@ pub fn run(sh: &mut Shard) {
         let r = if r.get("case").is_some() { r["case"].clone() } else { r };
         let (s0, ch) = parse_case(&r);
         sh.begin("replay", &r);
-        if let Err((sig, d)) = run_history(&mut a, &mut b, &s0, &ch, 1) {
-            sh.violation(sig, d, r.clone());
+        match run_history(&mut a, &mut b, &s0, &ch, 1) {
+            Err((sig, d)) => sh.violation(sig, d, r.clone()),
+            Ok(st) => {
+                if let Some(d) = st.range_mismatch {
+                    sh.violation("position|semantic-tokens-range-not-document-relative|replay".to_string(), d, r.clone());
+                }
+            }
         }
         sh.end();
         return;
@@ -443,11 +477,17 @@ pub fn run(sh: &mut Shard) {
                 }
             }
             Ok(Ok(st)) => {
+                if let Some(d) = &st.range_mismatch {
+                    let fin = final_text(&s0, &ch);
+                    let cls = if fin.chars().any(|c| c.len_utf16() == 2) { "astral" } else if !fin.is_ascii() { "bmp-non-ascii" } else if fin.contains('\r') { "crlf" } else { "ascii" };
+                    sh.violation(format!("position|semantic-tokens-range-not-document-relative|{cls}"), d.clone(), case.clone());
+                }
                 sh.count("answers_compared", st.answers);
                 sh.count("positions_validated_on_editor_text", st.positions);
                 sh.count("prepare_rename_round_trips", st.prepare);
                 sh.count("changes_applied", st.changes);
                 sh.count("watched_file_events_for_open_documents", st.watch_events);
+                sh.count("semantic_token_range_answers_compared_with_full", st.range_token_answers);
                 sh.count("histories_ok", 1);
                 if st.non_ascii_edit {
                     sh.count("histories_editing_after_non_ascii", 1);
